@@ -679,3 +679,37 @@ Theorem C11_gen_interpolate_surface_Q : forall (pts : list (list Q)) (su sv pu p
 Proof. exact interpolate_surface_tie_Q. Qed.
 Print Assumptions C11_gen_interpolate_surface_Q.
 
+
+
+From NV Require Import Gen.FittingC Proofs.GenTieApprox.
+
+(* [G] fitting.approximate_curve (centripetal = False), the numerical part.  dist = linalg.point_distance uninterpreted (any total function).
+   wf: >= 3 data points, >= 3 control points, degree < c, c - degree <= number of data points, all points have d coordinates.
+   Solvability: no zero on the diagonals of the LU factors of N^T N.  ZeroDivisionError of compute_params_curve <-> Crash *)
+Theorem C11_gen_approximate_curve_R : forall (pts : list (list R)) (p c d : nat) (dist : list R -> list R -> gres R) (dm : list R -> list R -> R),
+  (forall a b, dist a b = GOk (dm a b)) -> 3 <= length pts -> 3 <= c -> p < c -> c - p <= length pts ->
+  (forall pt, In pt pts -> length pt = d) ->
+  (forall uk Lm Um, Fit.compute_params_curve Rops (chords_of dm pts) = Ok uk ->
+     let Nm := Fit.approx_N Rops p c (Fit.compute_knot_vector2 Rops p (length pts) c uk) uk (length pts) in
+     LinAlg.lu_decomposition Rops (LinAlg.mmul Rops (LinAlg.transpose Rops Nm) Nm) = Ok (Lm, Um) ->
+     forall i, i < c - 2 -> i < length (nth i Lm []) /\ oeqb Rops (get2 Rops Lm i i) (o0 Rops) = false
+                             /\ c - 2 <= length (nth i Um []) /\ oeqb Rops (get2 Rops Um i i) (o0 Rops) = false) ->
+  FittingC.approximate_curve__centripetal_false Rops pts (Z.of_nat p) (Z.of_nat c) dist =
+  res_to_gres (fun Pkv => mk_curvedata2 (Z.of_nat p) (fst Pkv) (snd Pkv)) ValueError ZeroDivisionError
+    (Fit.approximate_curve Rops pts p c (chords_of dm pts)).
+Proof. exact approximate_curve_tie_R. Qed.
+Print Assumptions C11_gen_approximate_curve_R.
+Theorem C11_gen_approximate_curve_Q : forall (pts : list (list Q)) (p c d : nat) (dist : list Q -> list Q -> gres Q) (dm : list Q -> list Q -> Q),
+  (forall a b, dist a b = GOk (dm a b)) -> 3 <= length pts -> 3 <= c -> p < c -> c - p <= length pts ->
+  (forall pt, In pt pts -> length pt = d) ->
+  (forall uk Lm Um, Fit.compute_params_curve Qops (chords_of dm pts) = Ok uk ->
+     let Nm := Fit.approx_N Qops p c (Fit.compute_knot_vector2 Qops p (length pts) c uk) uk (length pts) in
+     LinAlg.lu_decomposition Qops (LinAlg.mmul Qops (LinAlg.transpose Qops Nm) Nm) = Ok (Lm, Um) ->
+     forall i, i < c - 2 -> i < length (nth i Lm []) /\ oeqb Qops (get2 Qops Lm i i) (o0 Qops) = false
+                             /\ c - 2 <= length (nth i Um []) /\ oeqb Qops (get2 Qops Um i i) (o0 Qops) = false) ->
+  FittingC.approximate_curve__centripetal_false Qops pts (Z.of_nat p) (Z.of_nat c) dist =
+  res_to_gres (fun Pkv => mk_curvedata2 (Z.of_nat p) (fst Pkv) (snd Pkv)) ValueError ZeroDivisionError
+    (Fit.approximate_curve Qops pts p c (chords_of dm pts)).
+Proof. exact approximate_curve_tie_Q. Qed.
+Print Assumptions C11_gen_approximate_curve_Q.
+
